@@ -1041,6 +1041,8 @@ def builder_units():
            subst=[{"find": "&[Self::Member]", "replace": "&[ExprGroup<ActionExpr>]", "why": "associated type of the Chain impl written out (type Member = ExprGroup<ActionExpr>)"}]),
         fn("len", "r", ensures=["r == self.members@.len()"]),
     ], self_ty="ActionExprChain", trait="Chain", header="impl ActionExprChain"))
+    u.append({"kind": "resolved", "trait_file": "join_impl/src/chain/mod.rs", "trait_": "Chain", "method": "is_empty", "impl_file": F_CHAIN, "self_ty": "ActionExprChain",
+              "name": "chain_is_empty", "ret": "r", "ensures": ["r == (this.members@.len() == 0)"]})
     u.append(fns(F_AG, [
         # contract only here: verified in module `parse`
         fn("parse_stream", "r", mode="assumed", ensures=PARSE_STREAM_ENSURES),
@@ -1082,7 +1084,7 @@ def builder_units():
            ],
                # A8 (machine arithmetic): the two counters are verified under the stated bound on the number of actions
                "body_prologue": "proof { assume(chain.members@.len() < 0x7fff_0000); }"}},
-           subst=[{"find": "chain.is_empty()", "replace": "(chain.len() == 0)", "why": "Chain::is_empty is the trait's default method `self.len() == 0`"},
+           subst=[{"find": "chain.is_empty()", "replace": "chain_is_empty(&chain)", "why": "R14: <ActionExprChain as Chain>::is_empty resolved to the body that runs (the impl's own method if it defines one, else the trait's provided `self.len() == 0`)"},
                   {"find": "let mut member_idx = 0;", "replace": "let mut member_idx: usize = 0;", "why": "integer type made explicit (only compared with 0 and incremented)"},
                   {"find": "            chain.append_member(action_expr);", "replace": "            proof { lemma_member_ok(action_group, action_expr); }\n            chain.append_member(action_expr);", "why": "R7 proof annotation (lemma call, no executable change)"}]),
     ], self_ty="ActionExprChainBuilder", trait="ParseChain", header="impl<'a> ActionExprChainBuilder<'a>"))
